@@ -10,6 +10,8 @@ use crate::world::*;
 use axelar_gateway::types::Message;
 use ed25519_dalek::Signer;
 use proptest::prelude::*;
+#[allow(unused_imports)]
+use crate::prop_oneof;
 use serde::{Deserialize, Serialize};
 use soroban_sdk::testutils::Address as _;
 use soroban_sdk::{Address, BytesN, Vec as SVec};
